@@ -232,29 +232,31 @@ fn enumerate(_tier: Tier, idx: u32, of: u32, cx: &mut Cx) -> CaseResult {
 
     // Blocks of 40 MiB and 33 MiB + 1 (64 MiB block size): the second version carries them
     // over from the first; both keep restoring.
-    let (opts, tree) = crate::probes::huge_block_tree();
-    let sub = cx.dir("huge-blocks");
-    std::fs::create_dir_all(sub.join("r")).unwrap();
-    let mut cx3 = crate::engine::sub_cx(cx, sub.clone());
-    cx3.scratch = sub.clone();
-    let mut w = World::new(&sub, &tree);
-    let mut n = 0u32;
-    for round in 0..2 {
-        crate::engine::heartbeat();
-        if round == 1 {
-            let _ = w.apply(&Op::Mutate(vec![crate::history::Edit::Nudge { idx: 40_000, pool: 1, dns: 5 }]));
+    // ... and a tree whose single index hunk exceeds 32 MiB (10 000 files with 3.3 KB paths)
+    for (name, (opts, tree)) in [("huge-blocks", crate::probes::huge_block_tree()), ("big-hunk", crate::probes::big_hunk_tree())] {
+        let sub = cx.dir(name);
+        std::fs::create_dir_all(sub.join("r")).unwrap();
+        let mut cx3 = crate::engine::sub_cx(cx, sub.clone());
+        cx3.scratch = sub.clone();
+        let mut w = World::new(&sub, &tree);
+        let mut n = 0u32;
+        for round in 0..2 {
+            crate::engine::heartbeat();
+            if round == 1 {
+                let _ = w.apply(&Op::Mutate(vec![crate::history::Edit::Nudge { idx: 40_000, pool: 1, dns: 5 }]));
+            }
+            let s = w.apply(&Op::Backup(opts));
+            ensure!(matches!(&s, StepKind::Backup { report, .. } if report.clean()), format!("C02/probe-{name}/backup"), "{}", step_summary(&s));
         }
-        let s = w.apply(&Op::Backup(opts));
-        ensure!(matches!(&s, StepKind::Backup { report, .. } if report.clean()), "C02/probe-huge-blocks/backup", "{}", step_summary(&s));
+        crate::engine::heartbeat();
+        check_all_versions(&w, &cx3, 2, &mut n).map_err(|mut f| {
+            f.signature = format!("{}/probe-{name}", f.signature);
+            f
+        })?;
+        crate::engine::force_remove(&sub);
+        cx.add_evals(n as u64);
+        cx.inner_nontrivial += 1;
     }
-    crate::engine::heartbeat();
-    check_all_versions(&w, &cx3, 2, &mut n).map_err(|mut f| {
-        f.signature = format!("{}/probe-huge-blocks", f.signature);
-        f
-    })?;
-    crate::engine::force_remove(&sub);
-    cx.add_evals(n as u64);
-    cx.inner_nontrivial += 1;
     Ok(())
 }
 
@@ -262,7 +264,7 @@ pub fn prop() -> Prop<History> {
     Prop {
         id: "C02",
         level: "exploration",
-        rule: "case = history (initial tree + <=14 ops quick / <=30 thorough over mutate/backup(options)/backup interrupted before its k-th mutating storage op (optionally leaving an empty file)/delete(subset, dry-run)/gc), interpreted against a model that remembers the source tree of every completed version; after EVERY step every surviving complete version is restored by id and compared byte/metadata-exact with its snapshot, and restore(latest) must equal the newest (or fail iff none). Non-trivial = >=2 completed backups with a mutation between them and at least one of {interrupted-then-resumed, delete of a middle version, gc, file<->dir swap}; distinct by case hash; evaluations = restores compared; plus two fixed scale probes per run (two versions of a 10 012-file tree with one entry per index hunk; two versions of a tree with single blocks of 40 MiB and 33 MiB+1 written with a 64 MiB block size)",
+        rule: "case = history (initial tree + <=14 ops quick / <=30 thorough over mutate/backup(options)/backup interrupted before its k-th mutating storage op (optionally leaving an empty file)/delete(subset, dry-run)/gc), interpreted against a model that remembers the source tree of every completed version; after EVERY step every surviving complete version is restored by id and compared byte/metadata-exact with its snapshot, and restore(latest) must equal the newest (or fail iff none). Non-trivial = >=2 completed backups with a mutation between them and at least one of {interrupted-then-resumed, delete of a middle version, gc, file<->dir swap}; distinct by case hash; evaluations = restores compared; plus three fixed scale probes per run (two versions of a 10 012-file tree with one entry per index hunk; of a tree with single blocks of 40 MiB and 33 MiB+1 written with a 64 MiB block size; of 10 000 files with 3.3 KB paths, i.e. one index hunk of more than 32 MiB)",
         assumptions: &[
             "interruption = storage frozen at a transport-operation boundary (all later operations fail without touching the directory)",
             "content changes always change mtime or size (documented heuristic)",
